@@ -2217,7 +2217,10 @@ impl RdfExpressionPredicate {
                 if args.is_empty() {
                     return None;
                 }
-                let is_bound = self.eval_expr(&args[0], chunk, row).is_some();
+                // An unbound variable reads as NULL from its column (OPTIONAL padding)
+                let is_bound = self
+                    .eval_expr(&args[0], chunk, row)
+                    .is_some_and(|v| !v.is_null());
                 Some(Value::Bool(is_bound))
             }
 
